@@ -304,6 +304,32 @@ def witnesses(prop):
 WITNESS_RUNS = {}
 
 
+def gate_g0(mod, cls, fname, tests, mark):
+    """(g0) the shape the gate rule presupposes, checked on its own so that a change of shape is never mistaken for the
+    recorded check-then-mark finding: the function tests the client's connection with the manager before it marks it, every
+    mark is preceded by a test, and between the test and the mark nothing happens but logging."""
+    t0 = time.time()
+    out = []
+    base = '%s.%s.%s/gate.g0.' % (mod, cls, fname)
+    found = source.find_method(mod, cls, fname)
+    if not found or found[0] != mod:
+        return [ob(base + 'test-then-mark', 'undecided', 'gate', t0, 'function not found')]
+    fn = found[2]
+    calls = _calls_in_order(fn)
+    tpos = [c for c in calls if c[2] in tests]
+    mpos = [c for c in calls if c[2] == mark]
+    ok = bool(tpos) and bool(mpos) and (tpos[0][0], tpos[0][1]) < (mpos[0][0], mpos[0][1])
+    out.append(ob(base + 'tests-the-connection-before-marking', 'proved' if ok else 'refuted', 'gate', t0,
+                  None if ok else 'tests found: %s, marks found: %s' % ([c[2] for c in tpos], [c[2] for c in mpos])))
+    if ok:
+        lo, hi = (tpos[-1][0], tpos[-1][1]) if (tpos[-1][0], tpos[-1][1]) < (mpos[0][0], mpos[0][1]) else (tpos[0][0], tpos[0][1]), (mpos[0][0], mpos[0][1])
+        window = [c for c in calls if lo < (c[0], c[1]) < hi and c[2] not in tests and c[2] != mark
+                  and not (isinstance(c[3].func.value, ast.Attribute) and c[3].func.value.attr == 'logger') and c[2] not in ('info', 'debug', 'warning', 'error')]
+        out.append(ob(base + 'nothing-but-logging-between-test-and-mark', 'proved' if not window else 'refuted', 'gate', t0,
+                      None if not window else 'between the test and the mark: %s' % ', '.join(ast.unparse(c[3])[:60] for c in window)))
+    return out
+
+
 def run(prop, tier, seed):
     out = []
     if tier == 'thorough':
@@ -328,12 +354,16 @@ def run(prop, tier, seed):
     if prop == 'C04':
         out.append(gate_g1('async_server', 'AsyncServer', 'disconnect', ('is_connected', 'can_disconnect'), 'pre_disconnect', True))
         out.append(gate_g1('async_server', 'AsyncServer', '_handle_disconnect', ('is_connected',), 'pre_disconnect', True))
+        out += gate_g0('async_server', 'AsyncServer', 'disconnect', ('is_connected', 'can_disconnect'), 'pre_disconnect')
+        out += gate_g0('async_server', 'AsyncServer', '_handle_disconnect', ('is_connected',), 'pre_disconnect')
         out += stability_lemmas(prop, seed)
     if prop == 'C20':
         g1 = [gate_g1('server', 'Server', 'disconnect', ('is_connected', 'can_disconnect'), 'pre_disconnect', False),
               gate_g1('server', 'Server', '_handle_disconnect', ('is_connected',), 'pre_disconnect', False)]
         lem = stability_lemmas(prop, seed)
         out += g1 + lem
+        out += gate_g0('server', 'Server', 'disconnect', ('is_connected', 'can_disconnect'), 'pre_disconnect')
+        out += gate_g0('server', 'Server', '_handle_disconnect', ('is_connected',), 'pre_disconnect')
         # what still has to hold while (g1) is a recorded finding: the rest of the gate rule, so that a different race is still reported
         for o in g1:
             t0 = time.time()
